@@ -309,9 +309,22 @@ func runC07(c *Ctx, idx int, o *Obs) {
 		}
 		multiOK := strings.Count(start, ";") == 1 && !strings.ContainsAny(start, "\n\r")
 		fm := tmpFile(c, "in3.nw", others[0]+"\n"+start+"\n"+others[1]+"\n")
+		inArgs, inStdin, inMode := presentTrees(c, r, "in-alt", []string{start}, plainNewick(start))
 		run := func(what string, args ...string) *ref.Tree {
-			res := runCLI(c, "", args...)
+			// the input is offered as a file, gzipped, on stdin or in another format
+			var a2 []string
+			for i := 0; i < len(args); i++ {
+				if args[i] == "-i" && i+1 < len(args) && args[i+1] == f {
+					a2 = append(a2, inArgs...)
+					i++
+					continue
+				}
+				a2 = append(a2, args[i])
+			}
+			what += " (input: " + inMode + ")"
+			res := runCLI(c, inStdin, a2...)
 			o.Ev("cli", 1)
+			o.Ev("cli_input:"+inMode, 1)
 			if !o.Check(res.Exit == 0 && !res.Panic, "cli_failed", what+": "+res.brief(), start) {
 				return nil
 			}
